@@ -74,6 +74,13 @@ for target in (4096, 8192):
     toks = [("m", m) for m in ms] + [("m", last), ("m", hb), ("j", b"tail")]
     case("frames-fill-%d-exactly" % target, parts(*toks), ["cuts %dx3 n" % target, "cuts %d,1x50 y" % target, "cuts 4096x4 n", "cuts 1x%d n" % (target + 60), "loop %dx3 y" % target])
 
+# exact boundary of the overflow guard: offset of the SOH after the digits is 31 here; 31 + n = MaxInt64 is still fine (reads to EOF)
+off = len(b"8=FIX.4.2" + SOH + b"9=") + 19
+for n in (2**63 - 1 - off - 1, 2**63 - 1 - off, 2**63 - off, 2**63 - off + 1):
+    s = b"8=FIX.4.2" + SOH + b"9=" + str(n).encode() + SOH + b"35=0" + SOH + b"10=000" + SOH + hb
+    assert len(str(n)) == 19
+    case("overflow-boundary-%d" % n, stream(s), stdops(len(s)))
+
 with open(__file__.rsplit("/", 1)[0] + "/frame.ops", "w") as f:
     for i, (label, first, ops) in enumerate(cases, 1):
         f.write("# case %d %s\n%s\n" % (i, label, first))
